@@ -283,8 +283,9 @@ void quantiles_sketch<T, C, A>::serialize(std::ostream& os, const SerDe& serde) 
   const uint8_t family = FAMILY;
   write(os, family);
 
-  // side-effect: sort base buffer since always compact
-  std::sort(const_cast<Level&>(base_buffer_).begin(), const_cast<Level&>(base_buffer_).end(), comparator_);
+  // side-effect: sort base buffer since always compact (only once: sorting again could reorder equivalent items,
+  // e.g. -0.0 and +0.0, so that two serializations of the same sketch would differ)
+  if (!is_base_buffer_sorted_) std::sort(const_cast<Level&>(base_buffer_).begin(), const_cast<Level&>(base_buffer_).end(), comparator_);
   const_cast<quantiles_sketch*>(this)->is_base_buffer_sorted_ = true;
 
   // empty, ordered, compact are valid flags
@@ -331,8 +332,9 @@ auto quantiles_sketch<T, C, A>::serialize(unsigned header_size_bytes, const SerD
   const uint8_t family = FAMILY;
   ptr += copy_to_mem(family, ptr);
 
-  // side-effect: sort base buffer since always compact
-  std::sort(const_cast<Level&>(base_buffer_).begin(), const_cast<Level&>(base_buffer_).end(), comparator_);
+  // side-effect: sort base buffer since always compact (only once: sorting again could reorder equivalent items,
+  // e.g. -0.0 and +0.0, so that two serializations of the same sketch would differ)
+  if (!is_base_buffer_sorted_) std::sort(const_cast<Level&>(base_buffer_).begin(), const_cast<Level&>(base_buffer_).end(), comparator_);
   const_cast<quantiles_sketch*>(this)->is_base_buffer_sorted_ = true;
 
   // empty, ordered, compact are valid flags
